@@ -736,7 +736,7 @@ func runFault(c *faultCase, pl *plane, tl *tally) bool {
 		lg.Flush()
 		lg.FlushPortBlocks()
 		pull()
-		n, cls, desc := compareAttribution(g, nPub, heldList, lm, focus, rnd)
+		n, cls, desc := compareAttribution(g, pubNames(nPub), heldList, lm, focus, rnd)
 		tl.add("fault_attribution_probes_in_order", n)
 		if cls != "" {
 			sk.report(compLog, "attribution-in-order", cls, fmt.Sprintf("after op %d: %s", k+1, desc))
@@ -759,7 +759,7 @@ func runFault(c *faultCase, pl *plane, tl *tally) bool {
 	mgr.Stop()
 	stopped = true
 	pull()
-	n, cls, desc := compareAttribution(g, nPub, heldList, lm, nil, rnd)
+	n, cls, desc := compareAttribution(g, pubNames(nPub), heldList, lm, nil, rnd)
 	tl.add("fault_attribution_probes_in_order", n)
 	if cls != "" {
 		sk.report(compLog, "attribution-in-order", cls, "after shutdown (everything flushed): "+desc)
